@@ -61,7 +61,7 @@ func main() {
 			if *tier == "thorough" {
 				*budget = 25 * time.Minute
 			} else {
-				*budget = 150 * time.Second
+				*budget = 600 * time.Second
 			}
 		}
 		seed := int64(1)
